@@ -67,13 +67,14 @@ def gen_leaf(rng, hashable_only=False):
     if r < 0.5:
         return {'op': 'type', 't': rng.choice(TYPE_NAMES)}
     if r < 0.62:
-        return {'op': 'regex', 'name': rng.choice(['ra', 'rb', 'rs']), 'func': rng.choice(['fullmatch', 'match', 'search'])}
+        return {'op': 'regex', 'name': rng.choice(['ra', 'rb', 'rs', 'rA']), 'func': rng.choice(['fullmatch', 'match', 'search']),
+                'flags': rng.choice(['', '', 'I'])}
     if r < 0.72:
         return {'op': 'pred', 'name': rng.choice(['yes', 'no', 'truthy', 'isnum', 'falsy', 'boom']), 'id': 0}
     if r < 0.95:
         rhs = rng.choice([{'k': 'int', 'i': 0}, {'k': 'int', 'i': 1}, {'k': 'str', 's': 'a'}, {'k': 'str', 's': 'b'},
                           {'k': 'none'}, {'k': 'bool', 'b': True}])
-        return {'op': 'm', 'cmp': rng.choice(['==', '!=', '<', '>', '<=', '>=']), 'rhs': rhs}
+        return {'op': 'm', 'cmp': rng.choice(['==', '!=', '<', '>', '<=', '>=']), 'rhs': rhs, 'refl': rng.random() < 0.3}
     return {'op': 'mtruthy'}
 
 
@@ -173,6 +174,10 @@ def gen_pattern(rng, depth):
     r = rng.random()
     if r < 0.06:
         return gen_and_defaults(rng, depth)
+    if r < 0.11:                               # a Match nested in the pattern, with or without its own default
+        hasdef = rng.random() < 0.6
+        return {'op': 'match', 'sub': gen_pattern(rng, depth - 1), 'hasdef': hasdef,
+                'def': rand_tree(rng, 1) if hasdef else {'k': 'none'}}
     if r < 0.12:
         return {'op': rng.choice(['and', 'or']), 'form': 'ctor', 'hasdef': False, 'def': {'k': 'none'},
                 'c': [gen_pattern(rng, depth - 1) for _ in range(rng.randint(1, 3))]}
@@ -216,6 +221,8 @@ def _holds_scalar(p, v):
     x = B.tree_py(v)
     try:
         if p['op'] == 'm':
+            if p.get('refl'):
+                return bool(B.CMP[p['cmp']](B.tree_py(p['rhs']), x))
             return bool(B.CMP[p['cmp']](x, B.tree_py(p['rhs'])))
         if p['op'] == 'mtruthy':
             return bool(x)
@@ -246,8 +253,11 @@ def conforming(rng, p, hashable=False):
             return {'k': 'c', 'cls': rng.choice(['dict', 'odict']), 'items': [{'key': rand_scalar(rng), 'val': tr}]}
         return {'k': 'c', 'cls': t, 'items': [rand_scalar(rng)] if rng.random() < 0.6 else []}
     if op == 'regex':
-        strs = sorted(B.REGEX_TAB[p['name']][p['func']])
+        name = 'ra' if p['name'] == 'rA' else p['name']
+        strs = sorted(B.REGEX_TAB[name][p['func']])
         return {'k': 'str', 's': rng.choice(strs)}
+    if op == 'match':
+        return conforming(rng, p['sub'], hashable)
     if op in ('m', 'mtruthy', 'pred'):
         cands = [v for v in SCALARS if _holds_scalar(p, v)]
         return dict(rng.choice(cands)) if cands else None
